@@ -5,7 +5,7 @@
 ID=$1; SEED=${2:-0}; TIER=${3:-quick}
 PID=${ID%%-*}
 WT=/tmp/seedrerun-$ID; SCR=/var/tmp/seedrerun-$ID
-cd /verif
+cd "${VERIF_HOME:-/verif}"
 git -C /repo worktree remove --force $WT 2>/dev/null; rm -rf $WT $SCR; mkdir -p $SCR
 git -C /repo worktree add -q --detach $WT HEAD || exit 2
 if ! git -C $WT apply /verif/seeded/$ID/patch.diff 2>$SCR/apply.err; then
